@@ -204,7 +204,7 @@ pub(crate) fn set_stamp(q: &mut ActiveQuery, d: Durability, r: Revision) {
     q.changed_at = r;
 }
 
-//@ob id=K-AQ-7 kind=C props=C14,C22,C01 timeout=900 fn=ActiveQuery::clear,ActiveQuery::reset_for
+//@ob id=K-AQ-7 kind=C props=C14,C01 timeout=900 fn=ActiveQuery::clear,ActiveQuery::reset_for
 //@ pre: a stack frame that was used by an execution which is being abandoned (popped while unwinding): it has read a provisional fixpoint value (one cycle head), recorded an input edge, created a tracked-struct identity and lowered its stamp
 //@ post: after `clear` + `reset_for(next query)` the frame carries **nothing** of the abandoned execution: no edges, no cycle heads, no identities, no disambiguators, stamp (MAX durability, R1), tracked - so the next query that reuses the frame (any query, also an unrelated one) starts clean
 #[cfg_attr(kani, kani::proof)]
